@@ -496,6 +496,25 @@ func checkC16(R *Run) {
 	// ---- legacy-array (on the SSA form, so that the loop may be a range or an index loop)
 	if uf := R.mustFn("(*hotline.AccessBitmap).UnmarshalYAML"); uf != nil {
 		ok, why := legacyCopy(uf)
+		// every other write to the bitmap is a Set decided by a lookup in the named-flag map
+		for _, ci := range callsIn(uf) {
+			c := ci.Common()
+			if calleeName(c) != "(*hotline.AccessBitmap).Set" || c.Args[0] != ssa.Value(uf.Params[0]) {
+				continue
+			}
+			fromTable := false
+			eachInstr(uf, func(ins ssa.Instruction) {
+				if lk, isLk := ins.(*ssa.Lookup); isLk {
+					if _, isMap := lk.X.Type().Underlying().(*types.Map); isMap && (lk.Block() == ci.Block() || lk.Block().Dominates(ci.Block())) {
+						fromTable = true
+					}
+				}
+			})
+			if !fromTable && why != "none" {
+				ok = false
+				why = "a privilege is set at " + P.ipos(ci) + " that is not read from the file's named flags (derived from other bits): the loaded bitmap differs from the stored one"
+			}
+		}
 		if why == "none" {
 			R.und("legacy-array", "UnmarshalYAML list case", "hotline/access.go", "no store of a list element into the bitmap found")
 		} else {
@@ -550,6 +569,45 @@ func checkC16(R *Run) {
 		}
 	}
 	R.floor("wire-raw", 4)
+
+	// ---- wire-in-raw: the incoming direction — bytes are laid into an AccessBitmap from offset 0 to offset 0
+	R.rule("wire-in-raw", "every copy into an AccessBitmap (builtin copy with the bitmap's bytes as destination) starts at byte 0 of the bitmap and at byte 0 of its source: privilege k of the wire field stays privilege k in memory whatever the field's length")
+	nIn := 0
+	isBitmap := func(v ssa.Value) bool {
+		t := v.Type()
+		if p, ok := t.Underlying().(*types.Pointer); ok {
+			t = p.Elem()
+		}
+		return typeName(t) == "hotline.AccessBitmap"
+	}
+	zeroLow := func(v ssa.Value) bool {
+		sl, ok := v.(*ssa.Slice)
+		if !ok || sl.Low == nil {
+			return true
+		}
+		k, isK := constInt(sl.Low)
+		return isK && k == 0
+	}
+	for _, fn := range P.Funcs {
+		if fn.Pkg == nil || fn.Pkg.Pkg.Path() == cmdPath {
+			continue
+		}
+		for _, ci := range callsIn(fn) {
+			c := ci.Common()
+			if calleeName(c) != "builtin.copy" {
+				continue
+			}
+			dst, ok := c.Args[0].(*ssa.Slice)
+			if !ok || !isBitmap(dst.X) {
+				continue
+			}
+			nIn++
+			R.analysed(fname(fn))
+			R.check(zeroLow(dst) && zeroLow(c.Args[1]), "wire-in-raw", fmt.Sprintf("%s: copy into AccessBitmap #%d", fname(fn), nCreateIn(fn, ci)), P.ipos(ci),
+				"copy(bitmap[0:], src[0:])", "the bytes are copied into the bitmap at a shifted position (destination or source does not start at byte 0): a short or long access field moves every privilege to another bit")
+		}
+	}
+	R.floor("wire-in-raw", 1)
 
 	// ---- access-writers
 	nW := 0
